@@ -115,8 +115,16 @@ def main():
                 if l is not None:
                     lits.append(l)
                     idx.append(i)
-            fl, errors = C.coq_run_cases(mod.IMPORTS, mod.CASE_TYPE, mod.RUN, mod.EQB, lits, scratch, prop)
+            mtags = collections.Counter()
+            fl, errors = C.coq_run_cases(mod.IMPORTS, mod.CASE_TYPE, mod.RUN, mod.EQB, lits, scratch, prop,
+                                         tagf=getattr(mod, "COQ_TAGF", None), tagc=mtags)
             failing = [idx[j] for j in fl]
+            names = getattr(mod, "COQ_TAG_NAMES", [])
+            for k, n_ in mtags.items():
+                tagc["branch:" + (names[k] if k < len(names) else str(k))] += n_
+            for nm in names:
+                if getattr(mod, "COQ_TAGF", None) and tagc["branch:" + nm] == 0:
+                    tagc["branch:" + nm] = 0
         if errors:
             body = {"kind": "no-failing-input-found", "seed": seed, "tier": tier, "case": None,
                     "model": {"file": "generated case files for %s" % prop, "theorem": "correspondence run",
